@@ -159,7 +159,10 @@ def run(ck):
                         continue
                     jobs2.append({"id": len(jobs2), "src": "<mjml><mj-body>%s</mj-body></mjml>" % (cf % elem(t, elem(t2, "y" if t2 in ("mj-text", "mj-button", "mj-raw", "mj-accordion-title", "mj-accordion-text", "mj-navbar-link", "mj-social-element") else ""))),
                                   "kind": "misplaced:%s>%s>%s" % (cn, t, t2)})
-    for s in ["", " ", "<", "<mjml", "<mjml>", "<mjml></mjml>", "\x00", "<mjml><mj-body></mj-body></mjml>", "<mj-body/>", "&", "<!--", "<mjml><mj-head></mjml>"]:
+    known6 = {k["id"]: k for k in vlib.known_findings("C06")}
+    announced6 = set()
+    for s in ["", " ", "<", "<mjml", "<mjml>", "<mjml></mjml>", "\x00", "<mjml><mj-body></mj-body></mjml>", "<mj-body/>", "&", "<!--", "<mjml><mj-head></mjml>",
+              "<mj-head />", "<mj-title>t</mj-title>", "<mj-raw></mj-raw>", "<mj-attributes/>"]:
         jobs2.append({"id": len(jobs2), "src": s, "kind": "tiny"})
     res2, dead2 = run_jobs(hb, "render-safe", jobs2, timeout=1500)
     classes = {}
@@ -173,7 +176,13 @@ def run(ck):
         if c in ("panic", "hang"):
             failing.append(({"src": j["src"], "kind": j["kind"]}, "%s: %s" % (c, r["err"].get("text", "")[:200])))
         elif r.get("trichotomy"):
-            failing.append(({"src": j["src"], "kind": j["kind"]}, "outcome trichotomy violated: " + r["trichotomy"]))
+            kid = "empty-output:non-mjml-root"
+            if r["trichotomy"] == "no html and no error" and r.get("root") not in (None, "mjml") and kid in known6:
+                if kid not in announced6:
+                    announced6.add(kid)
+                    ck.known("%s: %s" % (kid, known6[kid]["what"]))
+            else:
+                failing.append(({"src": j["src"], "kind": j["kind"]}, "outcome trichotomy violated: " + r["trichotomy"]))
     for j, rc, se in dead2:
         failing.append(({"src": j["src"], "kind": j["kind"]}, "process died (exit %s): %s" % (rc, se[-300:])))
     ck.cov["result_classes"] = classes
